@@ -421,6 +421,20 @@ def run_val(t, v):
     put('p.bytes', enc)
     put('p.bytes2', E(lambda: bytes(x).hex()))
 
+    def bytes3():
+        # bytes(sub-value) for the direct sub-values (fields, first / last elements, union value), basic ones included
+        subs = []
+        k = kind(t)
+        if k == 'cont':
+            subs = [getattr(x, 'f%d' % i) for i in range(len(t) - 1)]
+        elif k in ('vec', 'list') and len(x) > 0:
+            subs = [x[0], x[len(x) - 1]]
+        elif k == 'union' and x.value() is not None:
+            subs = [x.value()]
+        return ''.join('1' if bytes(sv) == sv.encode_bytes() else '0' for sv in subs)
+    if not isinstance(t, str) and kind(t) in ('cont', 'vec', 'list', 'union'):
+        put('p.bytes3', E(bytes3))
+
     def stream_write():
         s = io.BytesIO()
         s.write(b'\xaa\xbb\xcc')
@@ -719,6 +733,24 @@ def run_hist(t, v, ops, fresh=False):
     return ';'.join(out)
 
 
+def run_histd(t, ops):
+    """a history on the DEFAULT-constructed value (whose backing shares one child object between the two sides of
+    its pairs), with NOTHING hashed or read before the end"""
+    T = mk_type(t)
+    out = []
+    x = T()
+    for k, op in enumerate(ops):
+        try:
+            apply_op(t, x, op)
+            out.append('%d.p=ok' % k)
+        except Exception:
+            out.append('%d.p=err' % k)
+    out.append('end.read=%s' % E(lambda: to_val(t, x)))
+    out.append('end.bytes=%s' % E(lambda: x.encode_bytes().hex()))
+    out.append('end.root=%s' % E(lambda: x.hash_tree_root().hex()))
+    return ';'.join(out)
+
+
 def fresh_agreement(t, x):
     """the mutated view against a fresh value built from the content it shows by indexing: ==, roots,
     hash(), every other read route, object export (one flag each)"""
@@ -1006,10 +1038,11 @@ def run_tree(tr, cmds):
 
 
 def mk_key(t, k):
+    # (the pseudo keys are built at run time: equal to the literals, but not the same string objects)
     if k == 'len':
-        return '__len__'
+        return ''.join(['__', 'len', '__'])
     if k == 'sel':
-        return '__selector__'
+        return ''.join(['__', 'selector', '__'])
     if not isinstance(t, str) and t is not None and kind(t) == 'cont':
         return 'f%s' % k
     return int(k)
@@ -1158,6 +1191,8 @@ def run_case(line):
         return run_hist(c[1], c[2], c[3:])
     if k == 'histf':
         return run_hist(c[1], c[2], c[3:], fresh=True)
+    if k == 'histd':
+        return run_histd(c[1], c[2:])
     if k == 'dec':
         return run_dec(c[1], c[2], c[3], c[4])
     if k == 'tree':
